@@ -302,6 +302,16 @@ func algInfo(oid asn1.ObjectIdentifier) (*CaAlgorithmInfo, error) {
 	return &out, nil
 }
 
+// encodes the key-id for DO'84'
+// NB big.Int.Bytes() is empty for 0, but a key-id of 0 still needs one byte
+func keyIdBytes(keyId *big.Int) []byte {
+	out := keyId.Bytes()
+	if len(out) < 1 {
+		out = []byte{0x00}
+	}
+	return out
+}
+
 func (chipAuth *ChipAuth) doMseSetKAT(curve *elliptic.Curve, termKeypair cryptoutils.EcKeypair, caInfo *document.ChipAuthenticationInfo) error {
 	// MSE:Set KAT
 	//
@@ -319,7 +329,7 @@ func (chipAuth *ChipAuth) doMseSetKAT(curve *elliptic.Curve, termKeypair cryptou
 
 	// specify key-id (if required)
 	if caInfo.KeyId != nil {
-		nodes.AddNode(tlv.NewTlvSimpleNode(0x84, caInfo.KeyId.Bytes()))
+		nodes.AddNode(tlv.NewTlvSimpleNode(0x84, keyIdBytes(caInfo.KeyId)))
 	}
 
 	// MSE:Set KAT (0x41A6: Set Key Agreement Template for computation)
@@ -350,7 +360,7 @@ func (chipAuth *ChipAuth) doMseSetAT(caInfo *document.ChipAuthenticationInfo) er
 	nodes.AddNode(tlv.NewTlvSimpleNode(0x80, oid.OidBytes(caInfo.Protocol)))
 	// specify key-id (if required)
 	if caInfo.KeyId != nil {
-		nodes.AddNode(tlv.NewTlvSimpleNode(0x84, caInfo.KeyId.Bytes()))
+		nodes.AddNode(tlv.NewTlvSimpleNode(0x84, keyIdBytes(caInfo.KeyId)))
 	}
 
 	// MSE:Set AT (0x41A4: Chip Authentication)
